@@ -400,6 +400,24 @@ def fuse_zip(comp: ast.AST, fn: ast.AST) -> ast.AST:
     return comp
 
 
+def nonempty_subject(test: ast.AST) -> ast.AST | None:
+    "X when `test` holds iff the container X is non-empty: `X`, `len(X) > 0`, `0 < len(X)`, `len(X) != 0`, `len(X) >= 1`, `len(X)`"
+    t = test
+    if isinstance(t, (ast.Name, ast.Attribute)):
+        return t
+    if isinstance(t, ast.Call) and dotted_of(t.func) == "len" and len(t.args) == 1:
+        return t.args[0]
+    if isinstance(t, ast.Compare) and len(t.ops) == 1:
+        l, op, r = t.left, t.ops[0], t.comparators[0]
+        is_len = lambda e: isinstance(e, ast.Call) and dotted_of(e.func) == "len" and len(e.args) == 1
+        k = lambda e: e.value if isinstance(e, ast.Constant) and isinstance(e.value, int) else None
+        if is_len(l) and ((isinstance(op, (ast.Gt, ast.NotEq)) and k(r) == 0) or (isinstance(op, ast.GtE) and k(r) == 1)):
+            return l.args[0]
+        if is_len(r) and ((isinstance(op, (ast.Lt, ast.NotEq)) and k(l) == 0) or (isinstance(op, ast.LtE) and k(l) == 1)):
+            return r.args[0]
+    return None
+
+
 def CT(src: str, strip: bool = False) -> str:
     "canonical text of an expected expression (the index holds idiom-canonical trees: expected texts are canonicalised the same way)"
     t = ast.unparse(canon(ast.parse(src, mode="eval").body))
